@@ -143,6 +143,15 @@ FIRST_MISSED = {
     "C13s": "closed after reading the summary: the yaml front end is replayed with two simulations (nothing is inherited from the one before)",
     "C15s": "closed after reading the summary: the fraction the runner itself announces is compared too",
     "C15t": "a slip in the yaml front end (a simulation's `countries` key sticks): caught by C13's front-end replay",
+    # wave 11 (C08 C09 C10 C11 C13 C15 C17) and a tenth pair for C06 / C07
+    "C06s": "closed after reading the summary: every fifth herd run starts one herd from a configured head count; the target follows the configured count, not the object's copy",
+    "C08u": "missed first: the seaweed series were taken from the class, not from the glue that hands them to the optimiser, and the growth table was exactly as long as the horizon",
+    "C09u": "a truncation applied while tables are saved, to the live inputs of the later rounds: caught by C18 `HarvestSameEveryRound` (added after this change) for inputs with months below 0.001 billion kcal - in the shipped table that is ARM (thorough tier)",
+    "C10u": "missed first: the crops' extraction was not among the anchors; it is now checked under the four settings of the fat / protein switches",
+    "C10v": "a hand-written percent-to-kcals conversion inside the hand-off: caught by C18 `FillSum`",
+    "C13v": "closed after reading the summary: the multipliers at world scale, twice with one dictionary",
+    "C15v": "a slip in the yaml front end (a selection written as one plain string): caught by C13's front-end replay",
+    "C17u": "missed first: only the weighted entry point of the averaging helper was replayed; the even-weight one now answers the same vectors",
     "C18c": "caught from wave 1; a later encoding change turned its `inf` into a machinery failure for a while: a non-finite observation is now a violation",
 }
 
